@@ -43,6 +43,9 @@ def obligations(tier, seed):
     obs.append(dict(name='expr/hash160(0x..)', kind='expr', fun='hash160', L=3))
     for L in (0, 1, 2):
         obs.append(dict(name='base58/roundtrip/L%d/chk0' % L, kind='b58', L=L, chk=0))
+    # long payloads (digit-buffer sizing: 138/100 digits per byte): all bytes 0xff (the largest value of that length), encode then decode; the last byte symbolic where that still decides
+    for L in ((24, 25, 52, 63) if tier == 'quick' else (24, 25, 37, 38, 52, 63, 93, 104, 115)): obs.append(dict(name='base58/roundtrip-long/L%d' % L, kind='b58long', L=L, symlast=0))
+    for L in ((8,) if tier == 'quick' else (8, 52)): obs.append(dict(name='base58/roundtrip-long/L%d/last-byte-symbolic' % L, kind='b58long', L=L, symlast=1))          # L = 52: 490 s
     # base58 decoding of ARBITRARY short strings (alphabet membership, leading '1's, surrounding white space, digit values), not only of encoder output
     for n in (1, 2) if tier == 'quick' else (1, 2, 3): obs.append(dict(name='base58/decode-any/n%d' % n, kind='b58dec', n=n))
     # base58check: the checksum logic on its own (the base-58 digit conversion is cut out by a stub, so payload and checksum bytes can be fully symbolic)
@@ -164,6 +167,14 @@ def prep(ob, V=None):
             raw = outs[0](n); rp = sesslib.Rep(lambda off, n_: (hlib.le(raw[off:off + n_]) if n_ > 1 else raw[off]), (lambda t: hlib.uniq(E, f, t)) if f is not None else None)
             return dict(ok=rp.u32(), back=rp.bytes())
         return 'w_b58_roundtrip', [('in', data), ('u32', ob['L']), ('u32', ob['chk']), ('out', 300)], io, lambda ctx: dict(ok=1, back=list(data)), [], dict(data=data)
+    if k == 'b58long':
+        data = [0xff] * (ob['L'] - 1) + [var('b0') if ob['symlast'] else 0xff]
+        def io(E, f, ret, outs):
+            if ret is None: return crash(f)
+            n = hlib.uniq(E, f, ret) if f is not None else ret
+            raw = outs[0](n); rp = sesslib.Rep(lambda off, n_: (hlib.le(raw[off:off + n_]) if n_ > 1 else raw[off]), (lambda t: hlib.uniq(E, f, t)) if f is not None else None)
+            return dict(ok=rp.u32(), back=rp.bytes())
+        return 'w_b58_roundtrip', [('in', data), ('u32', ob['L']), ('u32', 0), ('out', 600)], io, lambda ctx: dict(ok=1, back=list(data)), [], dict(data=[x for x in data if is_sym(x)])
     if k == 'b58dec':
         cs = [var('c%d' % i) for i in range(ob['n'])]
         assume = [c != 0 for c in cs] if sym else []
